@@ -79,3 +79,58 @@ Proof. intros H. unfold read_uint. destruct (length bs <? n)%nat eqn:E; [reflexi
 
 Lemma read_bit_app b rest : read_bit (b :: rest) = Ok (b, rest).
 Proof. reflexivity. Qed.
+
+(** Packing into octets and unpacking again only appends the 0..7 padding bits. *)
+Lemma list_ind8 {A} (P : list A -> Prop) :
+  (forall l, (length l < 8)%nat -> P l) ->
+  (forall b0 b1 b2 b3 b4 b5 b6 b7 r, P r -> P (b0 :: b1 :: b2 :: b3 :: b4 :: b5 :: b6 :: b7 :: r)) ->
+  forall l, P l.
+Proof.
+  intros Hsmall Hstep l. remember (length l) as n eqn:En. revert l En.
+  induction n as [n IH] using lt_wf_ind. intros l En.
+  destruct (Nat.lt_ge_cases (length l) 8) as [Hlt|Hge]; [apply Hsmall; exact Hlt|].
+  destruct l as [|b0 [|b1 [|b2 [|b3 [|b4 [|b5 [|b6 [|b7 r]]]]]]]]; cbn [length] in Hge; try lia.
+  apply Hstep. apply (IH (length r)); [subst n; cbn [length]; lia | reflexivity].
+Qed.
+
+Lemma byte_of_8bits b0 b1 b2 b3 b4 b5 b6 b7 :
+  to_bits 8 (of_bits [b0; b1; b2; b3; b4; b5; b6; b7]) = [b0; b1; b2; b3; b4; b5; b6; b7].
+Proof. destruct b0, b1, b2, b3, b4, b5, b6, b7; reflexivity. Qed.
+
+Lemma bits_to_bytes_small (l : bits) :
+  (0 < length l < 8)%nat ->
+  bits_to_bytes l = [of_bits (l ++ repeat false (8 - length l))] /\
+  to_bits 8 (of_bits (l ++ repeat false (8 - length l))) = l ++ repeat false (8 - length l).
+Proof.
+  intros H.
+  destruct l as [|b0 [|b1 [|b2 [|b3 [|b4 [|b5 [|b6 [|b7 r]]]]]]]]; cbn [length] in H; try lia;
+    (split; [reflexivity|]);
+    repeat match goal with b : bool |- _ => destruct b end; reflexivity.
+Qed.
+
+Lemma bytes_bits_roundtrip (bs : bits) :
+  bytes_to_bits (bits_to_bytes bs) = bs ++ repeat false ((8 - length bs mod 8) mod 8).
+Proof.
+  induction bs as [l Hl | b0 b1 b2 b3 b4 b5 b6 b7 r IH] using list_ind8.
+  - destruct l as [|x l']; [reflexivity|].
+    assert (Hr : (0 < length (x :: l') < 8)%nat) by (cbn [length] in *; lia).
+    destruct (bits_to_bytes_small (x :: l') Hr) as (Hb & Ht). rewrite Hb.
+    unfold bytes_to_bits. cbn [flat_map]. rewrite app_nil_r, Ht.
+    rewrite (Nat.mod_small (length (x :: l')) 8) by lia.
+    rewrite (Nat.mod_small (8 - length (x :: l')) 8) by lia. reflexivity.
+  - change (bits_to_bytes (b0 :: b1 :: b2 :: b3 :: b4 :: b5 :: b6 :: b7 :: r))
+      with (of_bits [b0; b1; b2; b3; b4; b5; b6; b7] :: bits_to_bytes r).
+    unfold bytes_to_bits in *. cbn [flat_map]. rewrite IH, byte_of_8bits.
+    replace (length (b0 :: b1 :: b2 :: b3 :: b4 :: b5 :: b6 :: b7 :: r)) with (8 + length r)%nat by reflexivity.
+    replace ((8 + length r) mod 8)%nat with (length r mod 8)%nat
+      by (rewrite Nat.add_mod by lia; rewrite Nat.mod_same by lia; cbn [Nat.add]; rewrite Nat.mod_mod by lia; reflexivity).
+    reflexivity.
+Qed.
+
+Lemma bits_to_bytes_length (bs : bits) : (8 * length (bits_to_bytes bs) = length bs + (8 - length bs mod 8) mod 8)%nat.
+Proof.
+  pose proof (f_equal (@length bool) (bytes_bits_roundtrip bs)) as H.
+  rewrite app_length, repeat_length in H. rewrite <- H. clear H.
+  unfold bytes_to_bits. induction (bits_to_bytes bs) as [|b l IH]; [reflexivity|].
+  cbn [flat_map length]. rewrite app_length, to_bits_length. lia.
+Qed.
